@@ -37,7 +37,9 @@ def main(argv=None):
         if chk is not None:
             chk.inconclusive.append("%s: %s" % (type(e).__name__, e))
             try:
-                chk.finish()
+                st = chk.finish()
+                # a violation that was already reproduced natively stays a violation even if a later unit could not be encoded
+                return 1 if st == 1 else 2
             except Exception:
                 traceback.print_exc()
         return 2
